@@ -5,6 +5,9 @@
  *        a stream argument written hr:<path> is decoded (clean reference and every damaged history) in HALF-RATE mode:
  *        vorbis_synthesis_halfrate(&vi,1) before vorbis_synthesis_init; restart histories may come from a full-rate stream entry
  *        of the same setup (only its packets are used).
+ *        lap:<path> (combinable: lap:hr:<path>) reads every block through vorbis_synthesis_lapout: pcmout(v,NULL) for the count of
+ *        finished samples, lapout for finished+look-ahead data, vorbis_synthesis_read of the finished ones.  Clean reference and every
+ *        damaged history use that path; --info also reports whether the clean lapout output equals the clean pcmout output.
  *        c11_damage --info stream0.ogg ...          (one JSON line per stream, then exit)
  *
  * Every stream is parsed once with libogg (ogg_sync/ogg_stream_packetout: granulepos, packetno and e_o_s
@@ -58,7 +61,7 @@ typedef struct {
   char path[400]; pkt hdr[3]; pkt *p; int n, cap;
   vorbis_info vi; vorbis_comment vc; int ch; long bs0, bs1;
   chunk *clean; float *pcm; long pcm_n; long *bsz; long total;
-  unsigned char *file; long flen; int halfrate;
+  unsigned char *file; long flen; int halfrate, lap, lap_equals_pcmout, lap_first_diff;
 } stream;
 typedef struct { const unsigned char *data; long bytes; ogg_int64_t gp, pno; int eos; int tag; int cmp; int restart; int mark; } item;
 typedef struct { char kind[12]; long k, a, b; } opr;
@@ -77,9 +80,9 @@ static void die(const char *m, const char *a){ fprintf(stderr, "c11_damage: %s %
 /* ------------------------------------------------------------------ loading */
 static void load_stream(stream *s, const char *path){
   ogg_sync_state oy; ogg_stream_state os; ogg_page og; ogg_packet op; long len, pos = 0; unsigned char *d; int sinit = 0, nh = 0;
-  int hr = !strncmp(path, "hr:", 3);
-  memset(s, 0, sizeof(*s)); strncpy(s->path, path, sizeof(s->path) - 1); s->halfrate = hr;
-  if(hr)path += 3;
+  int hr = 0, lap = 0; const char *full = path;
+  while(1){ if(!strncmp(path, "hr:", 3)){ hr = 1; path += 3; } else if(!strncmp(path, "lap:", 4)){ lap = 1; path += 4; } else break; }
+  memset(s, 0, sizeof(*s)); strncpy(s->path, full, sizeof(s->path) - 1); s->halfrate = hr; s->lap = lap; s->lap_equals_pcmout = -1; s->lap_first_diff = -1;
   d = load_file(path, &len);
   ogg_sync_init(&oy);
   while(1){
@@ -112,6 +115,7 @@ static void load_stream(stream *s, const char *path){
 
 /* ------------------------------------------------------------------ decoding */
 static float *g_scr = NULL; static long g_scr_cap = 0;
+static int g_lap_on = 1;   /* 0 while the pcmout-path reference of a lap: stream is decoded */
 
 /* decodes the delivered history on a fresh decoder; out[i] = chunk of item i (off = sample offset into g_scr, channel-major per chunk) */
 static int decode_items(stream *s, item *it, int n, chunk *out){
@@ -127,6 +131,21 @@ static int decode_items(stream *s, item *it, int n, chunk *out){
     r = vorbis_synthesis(&vb, &op);
     out[i].acc = (r == 0); out[i].cnt = 0; out[i].off = used;
     if(r == 0){ if(vorbis_synthesis_blockin(&vd, &vb) != 0)out[i].acc = 2; }
+    if(s->lap && g_lap_on){
+      /* lapout read path: pcmout(v,NULL) for the number of finished samples, lapout for finished + look-ahead data,
+         vorbis_synthesis_read of the finished ones; only after a block was taken in (what a player with look-ahead does) */
+      if(out[i].acc == 1){
+        int cnt = vorbis_synthesis_pcmout(&vd, NULL), tot = vorbis_synthesis_lapout(&vd, &pcm);
+        if(tot < cnt)cnt = tot < 0 ? 0 : tot;
+        if(cnt > 0){
+          float *base = g_scr + used * s->ch;
+          if((used + cnt) * s->ch > g_scr_cap)die("scratch overflow", 0);
+          for(c = 0; c < s->ch; c++)memcpy(base + (long)c * cnt, pcm[c], sizeof(float) * cnt);
+          out[i].cnt = cnt;
+          if(vorbis_synthesis_read(&vd, cnt))out[i].acc = 2;
+        }
+      }
+    }else
     while((m = vorbis_synthesis_pcmout(&vd, &pcm)) > 0){
       if((used + out[i].cnt + m) * s->ch > g_scr_cap)die("scratch overflow", 0);
       /* a chunk is stored channel-major only after the drain is complete; usually one iteration */
@@ -288,6 +307,17 @@ static void clean_decode(stream *s){
   for(j = 0; j < s->n; j++){ tot += s->clean[j].cnt; if(s->clean[j].acc != 1)die("clean stream has a rejected packet", s->path); }
   s->pcm_n = tot; s->total = tot;
   s->pcm = (float*)__real_malloc(sizeof(float) * (tot * s->ch + 1)); memcpy(s->pcm, g_scr, sizeof(float) * tot * s->ch);
+  if(s->lap){ /* the finished samples read through lapout must be the ones the pcmout path delivers */
+    chunk *o2 = (chunk*)__real_malloc(sizeof(chunk) * (s->n + 1)); long u = 0; int same = 1;
+    g_lap_on = 0; decode_items(s, it, s->n, o2); g_lap_on = 1;
+    for(j = 0; j < s->n && same; j++){ if(o2[j].cnt != s->clean[j].cnt || o2[j].off != s->clean[j].off)same = 0; u += o2[j].cnt; }
+    if(same && memcmp(g_scr, s->pcm, sizeof(float) * tot * s->ch))same = 0;
+    s->lap_equals_pcmout = same;
+    if(!same){ s->lap_first_diff = -1; for(j = 0; j < s->n; j++){ if(o2[j].cnt != s->clean[j].cnt || memcmp(g_scr + o2[j].off * s->ch, s->pcm + s->clean[j].off * s->ch, sizeof(float) * s->ch * (o2[j].cnt < s->clean[j].cnt ? o2[j].cnt : s->clean[j].cnt))){ s->lap_first_diff = j; break; } } }
+    __real_free(o2);
+    /* g_scr now holds the pcmout decode; judge() below compares s->clean against s->pcm only through out[].off into g_scr, so redo the lap decode */
+    decode_items(s, it, s->n, s->clean);
+  }
   { tally T; memset(&T, 0, sizeof(T)); clean_assert = 1; judge(s, it, s->n, s->clean, -1, -1, 0, &T); clean_assert = 0; if(T.nfail || T.ex || T.sx)die("self-check of the judge on the clean history failed", s->path); }
   __real_free(it);
 }
@@ -332,7 +362,7 @@ static long vf_readall(stream *s, const unsigned char *data, long len, int seeka
 static void run_page_case(long idx, stream *s, const char *kind, long p, int seekable){
   static pginfo pg[4096]; int np = parse_pages(s, pg, 4096), c, j, holes, err, judged = 1; unsigned char *d; long dl = 0, tot, M = 0, P = 0;
   static float *cb = NULL, *db = NULL; static long ccap = 0, dcap = 0; static stream *cfor = NULL, *bfor = NULL; static long ctot = 0; static int cseek = -1;
-  if(s->halfrate){ printf("%ld SKIP page_cases_not_run_at_half_rate\n", idx); return; }
+  if(s->halfrate || s->lap){ printf("%ld SKIP page_cases_only_on_plain_streams\n", idx); return; }
   if(np < 0){ printf("%ld SKIP unparsable_pages\n", idx); return; }
   if(p < 2 || p >= np || pg[p].a < 0){ printf("%ld SKIP not_an_audio_page\n", idx); return; }
   for(j = 0; j < np; j++)if(pg[j].cont || pg[j].spans){ printf("%ld SKIP packet_spans_pages\n", idx); return; }
@@ -458,8 +488,8 @@ static void info(stream *s, int si){
   for(j = 0; j < s->n; j++)h_i64(&ho, s->clean[j].cnt);
   h_bytes(&ho, s->pcm, sizeof(float) * s->pcm_n * s->ch);
   h_hex(&hp, a); h_hex(&hs, b); h_hex(&ho, c);
-  printf("{\"stream\":%d,\"halfrate\":%d,\"path\":\"%s\",\"packets\":%d,\"bytes\":%ld,\"ch\":%d,\"bs0\":%ld,\"bs1\":%ld,\"granule_packets\":%d,\"transitions\":%d,\"samples\":%ld,\"last_eos\":%d,\"packets_hash\":\"%s\",\"setup_hash\":\"%s\",\"pcm_hash\":\"%s\",\"blocks\":\"",
-         si, s->halfrate, s->path, s->n, total, s->ch, s->bs0, s->bs1, ngp, trans, s->total, (s->n && s->p[s->n - 1].eos) ? 1 : 0, a, b, c);
+  printf("{\"stream\":%d,\"lap\":%d,\"lap_equals_pcmout\":%d,\"lap_first_diff\":%d,\"halfrate\":%d,\"path\":\"%s\",\"packets\":%d,\"bytes\":%ld,\"ch\":%d,\"bs0\":%ld,\"bs1\":%ld,\"granule_packets\":%d,\"transitions\":%d,\"samples\":%ld,\"last_eos\":%d,\"packets_hash\":\"%s\",\"setup_hash\":\"%s\",\"pcm_hash\":\"%s\",\"blocks\":\"",
+         si, s->lap, s->lap_equals_pcmout, s->lap_first_diff, s->halfrate, s->path + (s->lap ? 0 : 0), s->n, total, s->ch, s->bs0, s->bs1, ngp, trans, s->total, (s->n && s->p[s->n - 1].eos) ? 1 : 0, a, b, c);
   for(j = 0; j < s->n; j++)putchar(s->bsz[j] == s->bs1 && s->bs1 != s->bs0 ? 'L' : 'S');
   /* per packet: bitmask of channels whose spectrum decoded to exact silence (unused floor) */
   printf("\",\"zeroch\":\"");
